@@ -19,6 +19,18 @@ def set (m : PMap) (k : Key) (v : Value) : PMap := (k, v) :: m.filter (fun e => 
 /-- remove `k` and everything beneath it -/
 def removePrefix (m : PMap) (k : Key) : PMap := m.filter (fun e => !(k.isPrefixOf e.1))
 
+/-- the non-empty prefixes of a path: the elements that exist once it has been assigned -/
+def prefixes (k : Key) : List Key := (List.range k.length).map fun i => k.take (i + 1)
+
+/-- the existing elements after an accepted assignment to `k` -/
+def addNodes (ns : List Key) (k : Key) : List Key := ns ++ (prefixes k).filter (fun p => !ns.contains p)
+
+/-- the existing elements after removing `k` and everything beneath it -/
+def removeNodes (ns : List Key) (k : Key) : List Key := ns.filter (fun p => !(k.isPrefixOf p))
+
+/-- an assignment can only be accepted when every element fits an identifier (length incl. terminator ≤ 65535) -/
+def keyFits (k : Key) : Bool := k.all (fun e => e.length + 1 ≤ 65535)
+
 /-- the separator-delimited components of a text (always at least one, possibly empty) -/
 def splitOn (sep : Byte) : List Byte → List (List Byte)
   | [] => [[]]
